@@ -23,7 +23,7 @@ import (
 type fmtInfo struct {
 	e        *Env
 	g        *core.XG
-	types    []string   // alternatives of the placeholder regex's first group
+	types    []string // alternatives of the placeholder regex's first group
 	regexLit string
 	regexPos string
 	tagField *types.Var // PortInfo field holding the placeholder type
@@ -33,8 +33,8 @@ type fmtInfo struct {
 	problems []string
 
 	ipTempPath, ipPath, ipFifoPath *ssa.Function
-	arms                          map[string]*core.ScnResult
-	tagLoads                      []*core.Node
+	arms                           map[string]*core.ScnResult
+	tagLoads                       []*core.Node
 }
 
 // fatalFor: whenever a placeholder of type T is being formatted (i.e. from every load of the type field),
@@ -43,14 +43,22 @@ func (fi *fmtInfo) fatalFor(T string) bool {
 	if len(fi.tagLoads) == 0 {
 		return false
 	}
+	// only the loads that can be executed at all when every load of the type field yields T (a second load
+	// inside an arm is reached for that arm's types only)
+	fromEntry := fi.run(T, nil, true)
+	n0 := 0
 	for _, n := range fi.tagLoads {
+		if fromEntry.Reaches(func(m *core.Node) bool { return m == n }) == nil {
+			continue
+		}
+		n0++
 		sc := fi.scenario(T, nil, true)
 		sc.Start, sc.AtEntry, sc.Result = n, false, core.StrAV(T)
 		if fi.g.Run(sc).NormalReturn() != nil {
 			return false
 		}
 	}
-	return true
+	return n0 > 0
 }
 
 func inCtxOfFn(n *core.Node, fn *ssa.Function) bool {
@@ -83,17 +91,27 @@ func (e *Env) formatter() *fmtInfo {
 	fi.g = g
 	fi.ipTempPath, fi.ipPath, fi.ipFifoPath = p.Func("FileIP.TempPath"), p.Func("FileIP.Path"), p.Func("FileIP.FifoPath")
 	// placeholder regex: a regexp.Compile/MustCompile literal in NewTask's tree whose first group enumerates the types
+	// (compiled in the tree, or a package-level pattern used in the tree: resolved through its initialiser)
 	for _, n := range g.Nodes {
-		if !n.IsCallTo("regexp.Compile", "regexp.MustCompile") {
-			continue
+		var lits []string
+		switch {
+		case n.IsCallTo("regexp.Compile", "regexp.MustCompile"):
+			if s := e.symbolizer().InCtx(n.Ctx, n.Call.Args[0]); s.Op == "lit" {
+				lits = append(lits, s.Lit)
+			}
+		case n.Call != nil && n.Call.StaticCallee() != nil && strings.HasPrefix(n.Call.StaticCallee().String(), "(*regexp.Regexp).") && len(n.Call.Args) > 0 && n.Kind != core.KAfter:
+			e.fsym().InCtx(n.Ctx, n.Call.Args[0]).Walk(func(z *core.Sym) bool {
+				if z.Op == "call" && (z.Name == "regexp.MustCompile" || z.Name == "regexp.Compile") && len(z.Args) == 1 && z.Args[0].Op == "lit" {
+					lits = append(lits, z.Args[0].Lit)
+				}
+				return true
+			})
 		}
-		s := e.symbolizer().InCtx(n.Ctx, n.Call.Args[0])
-		if s.Op != "lit" {
-			continue
-		}
-		alts := regexGroupAlts(s.Lit)
-		if containsStr(alts, "o") && containsStr(alts, "i") {
-			fi.types, fi.regexLit, fi.regexPos = alts, s.Lit, g.Where(n)
+		for _, l := range lits {
+			alts := regexGroupAlts(l)
+			if containsStr(alts, "o") && containsStr(alts, "i") {
+				fi.types, fi.regexLit, fi.regexPos = alts, l, g.Where(n)
+			}
 		}
 	}
 	if len(fi.types) == 0 {
@@ -178,7 +196,7 @@ func (e *Env) formatter() *fmtInfo {
 			}
 			res := fi.run("i", map[*types.Var]core.AV{f: core.BoolAV(true)}, true)
 			off := fi.run("i", map[*types.Var]core.AV{f: core.BoolAV(false)}, true)
-			isJoin := func(m *core.Node) bool { return m.IsCallTo("strings.Join") && fi.inFormatter(m) }
+			isJoin := func(m *core.Node) bool { return fi.isJoinSite(m) }
 			if res.Reaches(isJoin) != nil && off.Reaches(isJoin) == nil {
 				fi.joinFld = f
 			}
@@ -206,6 +224,63 @@ func containsStr(xs []string, s string) bool {
 		}
 	}
 	return false
+}
+
+// isJoinSite: the point where the member strings of a sub-stream become one string: a strings.Join call, or
+// the String() of a strings.Builder that is written to inside a loop (the hand-written form of Join).
+func (fi *fmtInfo) isJoinSite(n *core.Node) bool {
+	if n.Kind == core.KAfter {
+		return false
+	}
+	if n.IsCallTo("strings.Join") {
+		return true
+	}
+	if !n.IsCallTo("(*strings.Builder).String") {
+		return false
+	}
+	for _, w := range fi.builderWrites(n) {
+		if _, ok := fi.e.loopOver(fi.g, w, ""); ok {
+			return true
+		}
+	}
+	return false
+}
+
+// builderWrites: the WriteString/WriteByte/WriteRune calls on the same strings.Builder as the String() call at n.
+func (fi *fmtInfo) builderWrites(n *core.Node) []*core.Node {
+	if n.Call == nil || len(n.Call.Args) == 0 {
+		return nil
+	}
+	sy := fi.e.symbolizer()
+	recv := sy.InCtx(n.Ctx, n.Call.Args[0])
+	var out []*core.Node
+	for _, m := range fi.g.Nodes {
+		if m.Kind == core.KAfter || !m.IsCallTo("(*strings.Builder).WriteString", "(*strings.Builder).WriteByte", "(*strings.Builder).WriteRune") {
+			continue
+		}
+		r2 := sy.InCtx(m.Ctx, m.Call.Args[0])
+		if r2.Val != nil && r2.Val == recv.Val && r2.String() == recv.String() {
+			out = append(out, m)
+		}
+	}
+	return out
+}
+
+// joinParts: for a join site, the separator(s) and the per-member values that are joined.
+func (fi *fmtInfo) joinParts(n *core.Node) (seps []*core.Sym, members []*core.Sym) {
+	sy := fi.e.symbolizer()
+	if n.IsCallTo("strings.Join") {
+		return []*core.Sym{sy.InCtx(n.Ctx, n.Call.Args[1])}, appendedPieces(sy.InCtx(n.Ctx, n.Call.Args[0]))
+	}
+	for _, w := range fi.builderWrites(n) {
+		a := sy.InCtx(w.Ctx, w.Call.Args[1])
+		if a.Op == "field" || a.Op == "lit" {
+			seps = append(seps, a)
+		} else {
+			members = append(members, a)
+		}
+	}
+	return
 }
 
 // inFormatter: the node lies below the formatter call (not in NewTask's own out-IP / sub-stream set-up).
@@ -306,10 +381,21 @@ func (fi *fmtInfo) valueLookups(res *core.ScnResult) []*core.Node {
 		if _, isMap := lk.X.Type().Underlying().(*types.Map); !isMap {
 			continue
 		}
-		s := sy.InCtx(n.Ctx, lk.X).String()
-		if !(s == "$inIPs" || s == "$params" || s == "$tags" || strings.HasSuffix(s, ".OutIPs") || strings.HasSuffix(s, ".InIPs") || strings.HasSuffix(s, ".Params") || strings.HasSuffix(s, ".Tags")) {
+		// a value table of the task: map[string]*FileIP (in-/out-IPs) or map[string]string (params, tags), looked
+		// up with a computed key (the placeholder's name) - identified by type, not by the name of a variable
+		mt := lk.X.Type().Underlying().(*types.Map)
+		isVal := false
+		switch el := mt.Elem().Underlying().(type) {
+		case *types.Pointer:
+			isVal = typeNamed(mt.Elem()) != nil && typeNamed(mt.Elem()).Obj().Name() == "FileIP"
+			_ = el
+		case *types.Basic:
+			isVal = el.Kind() == types.String
+		}
+		if _, constKey := lk.Index.(*ssa.Const); !isVal || constKey {
 			continue
 		}
+		_ = sy
 		if res.Reaches(func(m *core.Node) bool { return m == n }) != nil {
 			out = append(out, n)
 		}
